@@ -2022,6 +2022,11 @@ class SymEx:
                 return ('ite', x[1], l, r)
         if o in ('is', 'is not', '==', '!=') and a[0] == 'new' and b[0] == 'new' and a[1].startswith('enum:') and b[1].startswith('enum:'):
             return (TRUE if a == b else FALSE) if o in ('is', '==') else (FALSE if a == b else TRUE)
+        if o in ('is', 'is not') and a[0] == 'new' and b[0] == 'new' and not a[1].startswith('enum:') and not b[1].startswith('enum:'):
+            # two records built on this path: the same record (the very term: handed back as it was) is itself; records that differ in a field are two objects
+            if a is b or a == b:
+                return TRUE if o == 'is' else FALSE
+            return FALSE if o == 'is' else TRUE
         if o in ('is', 'is not', '==', '!=') and NONE in (a, b):
             other = b if a == NONE else a
             if other[0] in ('lambda', 'fn', 'nt', 'dict', 'list', 'tuple', 'set', 'str', 'num', 'new', 'comp', 'localfn', 'fmt', 'rat', 'cmp', 'not', 'and', 'or') or \
@@ -3534,6 +3539,15 @@ def _dict_of_zip(z, base):
         # dict(zip(('a', 'b', 'c'), (x, y)))  ==  {'a': x, 'b': y}: pairs up to the shorter of the two
         return ('dict', tuple(zip(ks[1], vs[1])))
     d = ks[2][0] if ks[0] == 'call' and ks[1] == ('meth', 'keys') and len(ks[2]) == 1 else ks
+    # (k for k, _ in d.items()) is d's keys; a tuple/list made of the values first is the same values
+    if ks[0] == 'comp' and ks[1] in ('list', 'gen') and len(ks[3]) == 1 and not ks[3][0][2] and len(ks[3][0][0]) == 2 and ks[2] == ks[3][0][0][0] \
+            and ks[3][0][1][0] == 'call' and ks[3][0][1][1] == ('meth', 'items') and len(ks[3][0][1][2]) == 1:
+        d = ks[3][0][1][2][0]
+    while vs[0] == 'call' and vs[1] in (('ext', 'LIST'), ('ext', 'TUPLE')) and len(vs[2]) == 1 and not vs[3]:
+        vs = vs[2][0]
+    if vs == ('call', ('meth', 'values'), (d,), ()):
+        kb, vb = ('bv', base), ('bv', base + 1)
+        return ('comp', 'dict', ('tuple', (kb, vb)), (((kb, vb), ('call', ('meth', 'items'), (d,), ()), ()),))
     if vs[0] == 'call' and vs[1] == ('ext', 'itertools.repeat') and len(vs[2]) == 1 and not vs[3]:
         # dict(zip(keys, repeat(c)))  ==  {k: c for k in keys}
         kb = ('bv', base)
@@ -3863,6 +3877,8 @@ def _is_local_container(v):
         return True
     if v[0] == 'call' and v[1][0] == 'ext' and (v[1][1] in LOCAL_CONTAINER_OPS or v[1][1].startswith('MUTATED_') or v[1][1] in ('DICT', 'LIST', 'SET', 'collections.OrderedDict', 'collections.deque')):
         return True
+    if v[0] == 'call' and v[1] == ('ext', 'REPEAT') and len(v[2]) == 2 and v[2][0][0] in ('list', 'tuple'):
+        return True         # [None] * n: a fresh list
     return False
 
 
